@@ -123,22 +123,10 @@ def show_http(m) -> str:
 
 
 # --------------------------------------------------------------------------------------------------
-# known finding: find_stage_prepend_append lets OSError escape on a real file
+# find_stage_prepend_append and the largest offset a real file accepts (finding C08-ppa-seek-beyond-fs-limit, repaired by
+# fix ce8ae1d: the final seek is inside try/except (OSError, OverflowError, ValueError))
 # --------------------------------------------------------------------------------------------------
 
-FINDING_PPA = "C08-ppa-seek-beyond-fs-limit"
-
-
-def _finding_listed(fid: str) -> bool:
-    try:
-        with open(os.path.join(os.path.dirname(__file__), "..", "..", "known_findings.json")) as fh:
-            kf = json.load(fh)
-        return any(k.get("id") == fid and k.get("status") == "known" for k in kf.get("findings", []))
-    except (OSError, ValueError):
-        return False
-
-
-_PPA_LISTED = _finding_listed(FINDING_PPA)
 _FS_LIMIT = None
 
 
@@ -197,14 +185,14 @@ def ppa_seek_target(data: bytes):
     return mz + size
 
 
-def in_ppa_finding_class(stream, line) -> bool:
-    if stream != "pelimit":
-        return False
-    w = line.split(" ")
-    if w[0] != "ppaL" or w[2] != "O":
-        return False
-    t = ppa_seek_target(C.unhx(w[3]))
-    return t is not None and t > int(w[1])
+def ppa_expected_beyond_eof(data: bytes):
+    """independent statement of the result of find_stage_prepend_append when the claimed image size points at or beyond the
+    end of the data (whether the file object accepts the seek or rejects it): `(prepend, None)`; None = not applicable"""
+    t = ppa_seek_target(data)
+    if t is None or t < len(data):
+        return None
+    mz = next(off for off in range(1024) if H18.candidate(data, off, 1024) in (AMD64, I386))
+    return f"ok {ob(data[:mz]) if mz > 0 else 'none'} none"
 
 
 # --------------------------------------------------------------------------------------------------
@@ -350,10 +338,6 @@ def oracle(stream, line, out):
     """outcome ∈ {documented result kind, ValueError where ValueError is documented}; plus the documented not-found value for
     inputs that cannot contain what is searched (decided from the input length alone)."""
     if out.startswith("exc "):
-        if out == "exc OSError" and in_ppa_finding_class(stream, line):
-            # known finding C08-ppa-seek-beyond-fs-limit (the model says OSError too): a violation of the property; until the
-            # finding is listed in known_findings.json the class is compared model-vs-implementation only
-            return False if _PPA_LISTED else None
         if out != "exc ValueError":
             return False                     # EOFError / OSError / IndexError / OverflowError / Timeout / …
         return stream in ("ff", "ffall", "xor", "http")   # pe.find_* and the ArtifactKit scan document no exception at all
@@ -371,6 +355,11 @@ def oracle(stream, line, out):
                        "ppa": "ok none none", "ppaL": "ok none none"}[op]
     if stream == "art" and n < 4:
         return out == "ok 0 0"
+    if op in ("ppa", "ppaL"):
+        # claimed image size at / beyond the end of the data (seek accepted or rejected by the file object): (prepend, None)
+        exp = ppa_expected_beyond_eof(_data_of(line))
+        if exp is not None:
+            return out == exp
     return True
 
 
@@ -390,12 +379,6 @@ def nontrivial(stream, line, out):
 
 def shrink(stream, line):
     yield from C.shrink_tokens(line)
-
-
-def known(stream, line, known_list):
-    if any(k.get("id") == FINDING_PPA for k in known_list) and in_ppa_finding_class(stream, line):
-        return FINDING_PPA
-    return None
 
 
 # --------------------------------------------------------------------------------------------------
@@ -807,8 +790,8 @@ def gen(tier, rng, shard, nshards):
                 st = xor_stage(rng, bytes(calm(bytearray(d + blk))), stublen=rng.choice([0, 5]), marker=False, good_size=True)
                 yield from all_entries(bytes(st), name + "-xor", i, pe_ops=(), art=False, ak=False)
 
-    # find_stage_prepend_append: Σ SizeOfRawData around the largest offset the file system accepts (known finding
-    # C08-ppa-seek-beyond-fs-limit on OS files; BytesIO must be unaffected)
+    # find_stage_prepend_append: Σ SizeOfRawData around the largest offset the file system accepts (the seek is rejected with
+    # EINVAL on OS files above it, accepted on BytesIO; both must give `(prepend, None)` — fix ce8ae1d)
     L = fs_limit()
     sync()
     if L < 2 ** 48:
